@@ -1783,3 +1783,15 @@ where
         }
     }
 }
+
+#[cfg(feature = "verif-hooks")]
+impl<T, B> Connection<T, B>
+where
+    T: AsyncRead + AsyncWrite + Unpin,
+    B: Buf,
+{
+    /// Read-only state snapshot (verification hook).
+    pub fn verif_snapshot(&self) -> crate::verif::Snapshot {
+        self.connection.verif_snapshot()
+    }
+}
